@@ -255,7 +255,9 @@ Example C14_lossless_donl_nonvacuous :
   = Ok (mkH265Pay true true 8, [Own [2; 1; 0; 7; 10]]).
 Proof.
   split; [|split; vm_compute; reflexivity].
-  vm_compute. repeat (constructor; try (vm_compute; intuition (try lia; try discriminate))).
+  match goal with |- Forall _ ?l => let v := eval vm_compute in l in change l with v end.
+  repeat (constructor; [split; [cbn [valid_nal5]; repeat split; try lia; vm_compute; reflexivity|unfold zlen; cbn [length]; lia]|]).
+  constructor.
 Qed.
 
 (* ---- the open known finding, as a witness evaluated on the model (vm_compute); the same input
@@ -283,7 +285,9 @@ Example C14_small_mtu_donl_repaired :
   = Ok (mkH265Pay false false 0, [Own [2; 1; 10; 11; 12; 13; 14; 15; 16; 17]]).
 Proof.
   split; [vm_compute; reflexivity|split; [|vm_compute; reflexivity]].
-  vm_compute. repeat (constructor; try (vm_compute; intuition (try lia; try discriminate))).
+  match goal with |- Forall _ ?l => let v := eval vm_compute in l in change l with v end.
+  repeat (constructor; [split; [cbn [valid_nal5]; repeat split; try lia; vm_compute; reflexivity|unfold zlen; cbn [length]; lia]|]).
+  constructor.
 Qed.
 
 (* KF-C14-donl-every-fu: with AddDONL every fragment carries a DONL field; H265Packet (and
